@@ -132,18 +132,13 @@ theorem genProg_subs {version : Nat} {p : Prog} {Pg : PProg} (h : genProg versio
   · cases h
   · cases h
 
-/-- **Closing lemma for whole programs**: a successful `genProg` on a program of the fragment
-    yields routine graphs with the properties the semantic half needs. -/
-theorem progOK_of_gen {version : Nat} {p : Prog} {Pg : PProg} (cx : Ctx)
-    (hg : genProg version false p = .ok Pg) (hf : inFragmentR p = true) :
-    ProgOK ⟨cx, p, Pg, version⟩ := by
-  intro f sd hsd
-  have hsubs := genProg_subs hg
-  obtain ⟨r, hr, hl⟩ := genSubs_lookup p.subs Pg.subs hsubs f sd hsd
+/-- from one successful `genSub` (stored under the model label of the routine) and the
+    per-routine fragment conditions to `SubOK` -/
+theorem subOK_of_genSub {P : PCtx} {f : Nat} {sd : SubDef} {r : Routine}
+    (hr : genSub P.version false false P.p sd (spillSlots sd) = .ok r)
+    (hl : P.Pg.subs.lookup (subLabel f) = some (r.G, r.start))
+    (hok : subOk P.p sd = true) : SubOK P f sd := by
   obtain ⟨bs, hb, hsh⟩ := genSub_spec hr
-  have hmem : sd ∈ p.subs := List.mem_of_find?_eq_some hsd
-  simp only [inFragmentR, Bool.and_eq_true, List.all_eq_true] at hf
-  have hok := hf.1.2 sd hmem
   simp only [subOk, Bool.and_eq_true, List.all_eq_true, decide_eq_true_eq] at hok
   obtain ⟨⟨⟨⟨⟨hwt, hpar⟩, hnd⟩, hloc⟩, hsnd⟩, hss⟩ := hok
   simp only [sameSet, Bool.and_eq_true, List.all_eq_true, List.contains_eq_mem, decide_eq_true_eq] at hss
@@ -152,5 +147,28 @@ theorem progOK_of_gen {version : Nat} {p : Prog} {Pg : PProg} (cx : Ctx)
   unfold prologue
   rw [List.map_map]
   exact hb
+
+/-- **Closing lemma for whole programs**: a successful `genProg` on a program of the fragment
+    yields routine graphs with the properties the semantic half needs. -/
+theorem progOK_of_gen {version : Nat} {p : Prog} {Pg : PProg} (cx : Ctx)
+    (hg : genProg version false p = .ok Pg) (hf : inFragmentR p = true) :
+    ProgOK ⟨cx, p, Pg, version⟩ := by
+  intro f sd hsd _
+  have hsubs := genProg_subs hg
+  obtain ⟨r, hr, hl⟩ := genSubs_lookup p.subs Pg.subs hsubs f sd hsd
+  have hmem : sd ∈ p.subs := List.mem_of_find?_eq_some hsd
+  simp only [inFragmentR, Bool.and_eq_true, List.all_eq_true] at hf
+  exact subOK_of_genSub (P := ⟨cx, p, Pg, version⟩) hr hl (hf.1.2 sd hmem)
+
+/-- `genProg` generates a graph for every declared routine -/
+theorem callPresent_of_gen {version : Nat} {p : Prog} {Pg : PProg} (cx : Ctx)
+    (hg : genProg version false p = .ok Pg) : CallPresent ⟨cx, p, Pg, version⟩ := by
+  intro X cfg K cur hR f ce cb k hf _
+  rw [hR.callees, callees_find] at hf
+  cases hsd : findSub p f with
+  | none => rw [hsd] at hf; cases hf
+  | some sd =>
+    obtain ⟨r, _, hl⟩ := genSubs_lookup p.subs Pg.subs (genProg_subs hg) f sd hsd
+    simp only [Present, hl, Option.isSome_some]
 
 end PyTealV.Proofs.C02Gen
